@@ -12,6 +12,7 @@ rsync -a --exclude replay --exclude .git "$SRC/" "$COPY/"; [ -x "$COPY/check" ] 
 cd "$COPY"
 git -C /repo worktree add --detach "$WT" HEAD >/dev/null 2>&1 || exit 2
 for d in seeded/$PAT/; do
+  [ -f "$d/meta.json" ] || continue
   id=$(basename "$d"); prop=$(python3 -c "import json;print(json.load(open('$d/meta.json'))['property'])")
   git -C "$WT" reset -q --hard HEAD; git -C "$WT" clean -fdq
   if ! git -C "$WT" apply "$PWD/$d/patch.diff" 2>/dev/null; then
